@@ -220,7 +220,9 @@ def check_object(qual, obj, stats, case, dotted=False, src=None):
             stats.nontriv(qual if src is None else src)
         # narrowing ------------------------------------------------------------------
         base = obj.__func__ if isinstance(obj, types.MethodType) else obj
-        if plainfn and not any(hasattr(base, a) for a in ('__wrapped__', '__signature__', '_sigtools__forger', '_sigtools__autoforwards_hint')):
+        # (classes too: calling a class is making an instance, whatever __call__ it defines for its instances)
+        plaincls = isinstance(obj, type) and not any(a in vars(obj) for a in ('__signature__', '_sigtools__forger', '_sigtools__autoforwards_hint'))
+        if (plainfn or plaincls) and not any(hasattr(base, a) for a in ('__wrapped__', '__signature__', '_sigtools__forger', '_sigtools__autoforwards_hint')):
             oview = universe.sig_view(own)
             ob = cpbind.binder(oview)
             for gname, r in results.items():
@@ -429,6 +431,8 @@ HEADS = [
     ('class K:\n    def w(*args, **kwargs):', 'K().w'),
     ('def w0(*args, **kwargs):\n    return w(*args, **kwargs)\ndef w(*args, **kwargs):', 'functools.partial(w0, 1, 2, 3)'),
     ('def w0(*args, **kwargs):\n    return w(*args, **kwargs)\ndef w(*args, **kwargs):', 'functools.partial(w0, zz9=3)'),
+    ('class K:\n    def __init__(self, name):\n        pass\n    def __call__(self, *args, **kwargs):', 'K'),
+    ('class K:\n    def __init__(self, name):\n        pass\n    def __call__(self, *args, **kwargs):', 'K("n")'),
     # a partial object inspect rejects (too many positionals for the forwarding function itself): same exception type
     ('def w0(c, **kwargs):\n    return c(**kwargs)\ndef w(*args, **kwargs):', 'functools.partial(w0, w, 1)'),
 ]
@@ -583,6 +587,48 @@ def special_objects():
             ('partial(int, base=2)', functools.partial(int, base=2)), ('partial(Hostile())', functools.partial(Hostile(), 1)),
             ('types.MethodType(print, 1)', types.MethodType(print, 1)), ('classmethod(len)', classmethod(len)),
             ('property()', property()), ('None', None), ('3', 3), ('NotImplemented', NotImplemented)]
+    # the as_forged pattern with a forger set on the instance itself
+    from sigtools import specifiers
+
+    def _fwd_target(a, b, c):
+        return 0
+
+    class SelfForged(object):
+        __signature__ = specifiers.as_forged
+
+        def __init__(self):
+            specifiers.forwards_to_function(_fwd_target)(self)
+
+        def __call__(self, x, *args, **kwargs):
+            return _fwd_target(*args, **kwargs)
+    out += [('SelfForged()', SelfForged())]
+
+    # forwards_to_super written above a modifiers decorator
+    from sigtools import modifiers
+
+    class SuperBase(object):
+        def m(self, a, j=1):
+            return 0
+
+    class SuperOverModifiers(SuperBase):
+        @specifiers.forwards_to_super()
+        @modifiers.kwoargs('k')
+        def m(self, x, k=2, *args, **kwargs):
+            return super().m(*args, **kwargs)
+    out += [('SuperOverModifiers().m', SuperOverModifiers().m)]
+
+    # a callable that defines __eq__ without __hash__ (what @dataclass gives by default)
+    class Unhashable(object):
+        def __init__(self, name):
+            self.name = name
+
+        def __eq__(self, other):
+            return isinstance(other, Unhashable) and other.name == self.name
+        __hash__ = None
+
+        def __call__(self, a, *args, **kwargs):
+            return _fwd_target(*args, **kwargs)
+    out += [('Unhashable()', Unhashable('x')), ('partial(Unhashable(), 1)', functools.partial(Unhashable('x'), 1))]
     from unittest import mock
     out += [('mock.Mock()', mock.Mock()), ('mock.MagicMock()', mock.MagicMock()), ('mock.NonCallableMock()', mock.NonCallableMock()),
             ('mock.call', mock.call), ('mock.ANY', mock.ANY),
@@ -590,10 +636,52 @@ def special_objects():
     return out
 
 
+def check_unhonourable(stats):
+    """An explicit forwards_to_* declaration that cannot be honoured surfaces as ValueError (and only as that)."""
+    import sigtools
+    from sigtools import specifiers
+
+    def inner(a, b):
+        return 0
+
+    class K(object):
+        @specifiers.forwards_to_method('nope')
+        def missing(self, *args, **kwargs):
+            return 0
+
+        @specifiers.forwards_to_method('nope.deeper')
+        def missing_deep(self, *args, **kwargs):
+            return 0
+
+        @specifiers.forwards_to_function(inner, 5)
+        def too_many(self, *args, **kwargs):
+            return 0
+
+        @specifiers.forwards_to_function(inner, 0, 'zz')
+        def unknown_name(self, *args, **kwargs):
+            return 0
+    k = K()
+    for name in ('missing', 'missing_deep', 'too_many', 'unknown_name'):
+        for label, getter in (('sigtools.signature', sigtools.signature), ('sigtools.signature(auto=False)', lambda o: sigtools.signature(o, auto=False))):
+            stats.case()
+            stats.cls('special/unhonourable-declaration')
+            try:
+                r = getter(getattr(k, name))
+                out = 'returned %s' % r
+            except ValueError:
+                stats.nontriv(('unhonourable', name, label))
+                continue
+            except Exception as e:
+                out = 'raised %s: %s' % (type(e).__name__, e)
+            stats.fail('C07/unhonourable-declaration/%s' % name, {'kind': 'special', 'object': 'unhonourable:' + name},
+                       '%s of a method whose forwards_to_* declaration cannot be honoured (%s) %s; expected ValueError' % (label, name, out))
+
+
 def shard_special(arg):
     st = Stats()
     for qual, obj in special_objects():
         check_object(qual, obj, st, {'kind': 'special', 'object': qual})
+    check_unhonourable(st)
     return st
 
 
@@ -750,6 +838,8 @@ def replay(case, stats):
         check_generated(c, stats)
     elif case.get('kind') == 'sphinx':
         stats.merge(shard_sphinx_module(0))
+    elif case.get('kind') == 'special' and str(case.get('object', '')).startswith('unhonourable:'):
+        check_unhonourable(stats)
     elif case.get('kind') == 'special':
         for qual, obj in special_objects():
             if qual == case['object']:
